@@ -591,6 +591,9 @@ def step6_cases(rng, count, nmax, cs, problems, res):
             return f"impl (n_lower n_upper raw_lower raw_upper) {' '.join(want)} model {g}"
 
         cs.add(f"counts {adj} {lthr} {uthr} {tlist(obs)} {tlist(cmh)} {tlist(cmf)}", "step6-counts", case, cmp_counts)
+        if seq:  # tie of the state model (`Props.C11.counts_after_reconfiguration`): the same event sequence in the model
+            ev = f"L:none,U:none,use,use,L:{lthr},U:{uthr},use"
+            cs.add(f"seqcounts {adj} {ev} {tlist(obs)} {tlist(cmh)} {tlist(cmf)}", "sequence-counts", case, counts_cmp(nl, nu, res))
         cs.add(f"lmask {int(nl)} {n}", "step6-lower-mask", case, exact(mstr(rec["mask_l"])))
         cs.add(f"umask {int(nu)} {n}", "step6-upper-mask", case, exact(mstr(rec["mask_u"])))
         mid = rec.get("mid")
@@ -608,9 +611,21 @@ def recording_windows(calls):
     """in-process instrumentation: every `_apply_on_window` call with copies of its inputs (taken on entry), its
     output and the mapped middle values of its step 6"""
     ISIMIP = _isimip()
-    saved = {k: ISIMIP.__dict__[k] for k in ("_apply_on_window", "_step6_adjust_values_between_thresholds")}
+    saved = {k: ISIMIP.__dict__[k] for k in ("_apply_on_window", "_step6_adjust_values_between_thresholds",
+                                             "_step6_get_mask_for_entries_to_set_to_lower_bound",
+                                             "_step6_get_mask_for_entries_to_set_to_upper_bound")}
     f_win, f_mid = saved["_apply_on_window"], saved["_step6_adjust_values_between_thresholds"]
-    cur = {"mids": None}
+    f_lo = saved["_step6_get_mask_for_entries_to_set_to_lower_bound"].__func__
+    f_up = saved["_step6_get_mask_for_entries_to_set_to_upper_bound"].__func__
+    cur = {"mids": None, "nl": None, "nu": None}
+
+    def lo(nr, x):
+        cur["nl"] = nr
+        return f_lo(nr, x)
+
+    def up(nr, x):
+        cur["nu"] = nr
+        return f_up(nr, x)
 
     def mid(self, *a, **k):
         out = f_mid(self, *a, **k)
@@ -620,15 +635,17 @@ def recording_windows(calls):
 
     def win(self, obs_hist, cm_hist, cm_future, *a, **k):
         snap = [np.array(x, dtype=float, copy=True) for x in (obs_hist, cm_hist, cm_future)]
-        cur["mids"] = []
+        cur["mids"], cur["nl"], cur["nu"] = [], None, None
         out = f_win(self, obs_hist, cm_hist, cm_future, *a, **k)
-        calls.append({"in": snap, "out": np.array(out, dtype=float, copy=True), "mids": cur["mids"]})
+        calls.append({"in": snap, "out": np.array(out, dtype=float, copy=True), "mids": cur["mids"], "nl": cur["nl"], "nu": cur["nu"]})
         cur["mids"] = None
         return out
 
     try:
         ISIMIP._apply_on_window = win
         ISIMIP._step6_adjust_values_between_thresholds = mid
+        ISIMIP._step6_get_mask_for_entries_to_set_to_lower_bound = staticmethod(lo)
+        ISIMIP._step6_get_mask_for_entries_to_set_to_upper_bound = staticmethod(up)
         yield
     finally:
         for k, v in saved.items():
@@ -663,7 +680,23 @@ def _pipeline_times(fi):
     return out
 
 
-def _pipeline_run(fi, problems, res):
+def counts_cmp(nl, nu, res):
+    """compare the driver's `counts` answer with the counts the real step 6 used (ties: size * P exactly a half)"""
+    def cmp(g):
+        parts = g.split(" ")
+        if len(parts) != 5:
+            return f"malformed driver answer {g[:80]}"
+        want = [str(int(nl)), str(int(nu))]
+        if parts[:2] == want:
+            return None
+        if parts[4] == "1" and all(abs(int(a) - int(b)) <= 1 for a, b in zip(parts[:2], want)):
+            res.extra["ties_accepted"] += 1
+            return "tie"
+        return f"impl (n_lower n_upper used inside the window) {' '.join(want)} model (counts of the window's original inputs) {g}"
+    return cmp
+
+
+def _pipeline_run(fi, problems, res, cs=None):
     """One end-to-end case.  The count clause is demanded (1) of every `_apply_on_window` call, with P from copies of
     the call's inputs taken on entry (state shared between the steps), and (2) of the outputs of `apply_location` /
     serial `apply` / parallel `apply`, with the windows (calendar months, or running windows with length = step on
@@ -701,8 +734,15 @@ def _pipeline_run(fi, problems, res):
         out = call(serial_path)
     # (1) every window the real code formed
     guard = True
+    lthr = tok(deb.lower_threshold) if has_lt(deb) else "none"
+    uthr = tok(deb.upper_threshold) if has_ut(deb) else "none"
     for k, c in enumerate(calls):
         res.extra["pipeline_window_calls"] = res.extra.get("pipeline_window_calls", 0) + 1
+        if cs is not None and c["nl"] is not None and c["nu"] is not None and k % 3 == 0:
+            # tie of `Props.C11.window_counts_original`: the model's counts of the window's ORIGINAL inputs against the
+            # counts the real step 6 used after the real steps 2-5
+            cs.add(f"counts {adj} {lthr} {uthr} {tlist(c['in'][0])} {tlist(c['in'][1])} {tlist(c['in'][2])}", "window-counts",
+                   {"variable": var, "adjust": adj, "mode": mode, "window_call": k, "near": fi.get("near")}, counts_cmp(c["nl"], c["nu"], res))
         if not all(lo < v < hi for m in c["mids"] for v in m.tolist()):
             guard = False
             continue
@@ -748,7 +788,7 @@ def _pipeline_run(fi, problems, res):
                 return
 
 
-def pipeline_cases(rng, count, problems, res):
+def pipeline_cases(rng, count, problems, res, cs=None):
     """daily series of 2-3 years with a seasonal cycle in the beyond-threshold frequencies, records starting on
     1 Jan / 1 Apr / 1 Oct / any day, moderate values or values close to a threshold with a strong climate signal in
     either direction; month mode and running-window mode; apply_location, serial apply, parallel apply."""
@@ -798,7 +838,7 @@ def pipeline_cases(rng, count, problems, res):
                                         wet_scale=sc, ties=ties, near=near)
             fi[name] = x.tolist()
         try:
-            _pipeline_run(fi, problems, res)
+            _pipeline_run(fi, problems, res, cs)
             res.extra["pipeline_runs"] += 1
         except Exception as ex:  # noqa: BLE001
             res.extra["pipeline_skipped"] += 1
@@ -937,6 +977,9 @@ def masked_cases(rng, count, problems, res):
                 res.notes.append(f"apply with missing values [{var}] raised {type(ex).__name__}: {str(ex)[:160]}")
 
 
+ISI_CONFIGS = ["pr_mult", "pr_mixed", "pr_nofreq", "pr_npqm", "skew_npqm", "skew_param", "hurs", "hurs_param_freq"]
+
+
 # ------------------------------------------------------------------ the check
 def run(tier, res, force_search=False):
     rng = random.Random(C.seed() * 104729 + 11)
@@ -946,11 +989,23 @@ def run(tier, res, force_search=False):
                 "{0, interior, 1}, sign(Ph-Po), sign(Pf-Ph)); rescaling (l,u,n) with l,u <= n; nr (adjust, signs, edge flags, size); "
                 "step6 (variable, adjust, generator kind, size class, lower/upper count class, rescaled)")
     res.trusted = C.BASE_TRUSTED + [
+        "the shared window-pipeline model Model.Isimip (steps 3-7, winFn, month loop) on which Props.C11.window_* / month_mode_* are stated; "
+        "tied on every run by the DrvIsimip correspondence (isimip_corr.correspondence / correspondence_location, thresholded configurations) "
+        "and by the `counts` driver lines on the inputs of every real window of the pipeline cases",
+        "the kernel cannot evaluate List.mergeSort on >= 2 elements: the concrete multi-value window of Props.C11.Example is evaluated by the driver, "
+        "the kernel checks its counts and a complete one-value window",
         "np.sort / np.argsort / boolean-mask assignment semantics as modelled by Model.IsimipFreq.assignBounds (validated by the step6 correspondence)",
         "the values `_step6_adjust_values_between_thresholds` returns are a parameter of the model (recorded from the real run)",
         "Python slice semantics mask[0:nr], mask[(n-nr):] as modelled by Model.IsimipFreq.pySliceIdx (validated exhaustively for n <= 12)",
     ]
     res.assumptions = [
+        "RUNTIME-ONLY clauses (decided by the oracle on the real code, no theorem — the value-level model is pure and cannot exhibit them): "
+        "(a) step 5 must not overwrite obs_hist in place before step 6 reads it (numpy aliasing; in the model step 5 returns a new list, "
+        "Props.C11.window_counts_original states the counts are those of the original inputs); (b) the has_* flags must be derived from "
+        "the current attribute values (a cached flag is state outside the specification Props.C11.counts_after_reconfiguration); "
+        "(c) integer-typed masked arrays and float arrays with NaN gaps must denote the same data (dtype conversion / mask handling); "
+        "(d) every dispatch path (apply_location, serial and parallel apply) must hand the time axes that were passed in to the window "
+        "loop (process pool, kwargs forwarding; the loop itself is Props.C11.month_mode_bound_counts / C07 / C08)",
         "frequencies are exact rationals; float rounding of size*P exactly at a half may go either way (driver flags it, counted as ties_accepted)",
         "masks / series are non-empty (numpy yields NaN on an empty mask and round() raises)",
         "guard of the realised-count clause: the mapped middle values are strictly inside the bounds (checked on the recorded values; excluded runs are counted)",
@@ -962,7 +1017,7 @@ def run(tier, res, force_search=False):
     if not quick and lean_ok:  # thorough: re-check the compiled declarations of the property modules with the external kernel
         import fcntl
 
-        mods = ["IbicusModel.Props.C11", "IbicusModel.Lemmas.GenIsimipFreq", "IbicusModel.Lemmas.IsimipFreq",
+        mods = ["IbicusModel.Props.C11", "IbicusModel.Lemmas.C11Pipeline", "IbicusModel.Lemmas.GenIsimipFreq", "IbicusModel.Lemmas.IsimipFreq",
                 "IbicusModel.Model.IsimipFreq", "IbicusModel.Gen.IsimipFreq"]
         with open(C.LOCK, "w") as lk:
             fcntl.flock(lk, fcntl.LOCK_SH)
@@ -979,6 +1034,7 @@ def run(tier, res, force_search=False):
     nr_cases(rng, 3 if quick else 5, (300 if quick else 3000) * boost, 60 if quick else 400, cs, problems, res)
     mask_cases(12, cs, res)
     step6_cases(rng, (180 if quick else 2400) * boost, 80 if quick else 400, cs, problems, res)
+    pipeline_cases(rng, 12 if quick else 72, problems, res, cs)
 
     mismatches = []
     try:
@@ -997,7 +1053,22 @@ def run(tier, res, force_search=False):
         res.tie_broken.append(f"step6 raised in {res.extra['step6_exceptions']} of {runs + res.extra['step6_exceptions']} generated cases")
 
     # assembled pipeline (small budget always; larger when a tie is broken)
-    pipeline_cases(rng, (12 if quick else 72) * (3 if (mismatches or not lean_ok or force_search) else 1), problems, res)
+    # tie of the shared window-pipeline model `Model.Isimip` (on which `Props.C11.window_*` are stated) on thresholded
+    # configurations without detrending: real `_apply_on_window` and its stages against `DrvIsimip`
+    try:
+        from harness import isimip_corr
+
+        isi = isimip_corr.correspondence(rng, 16 if quick else 160, tier, res, configs=ISI_CONFIGS)
+        # … and of the composition step 1 -> month / running-window loop with the window function -> step 8
+        isi += isimip_corr.correspondence_location(rng, 4 if quick else 24, tier, res)
+    except Exception as ex:  # noqa: BLE001
+        isi = [{"op": "isimip_corr", "case": {}, "detail": f"{type(ex).__name__}: {str(ex)[:300]}"}]
+    res.extra["window_model_traces"] = res.extra.get("window_model_traces", 0) + (16 if quick else 160)
+    if isi:
+        res.tie_broken.append(f"correspondence DrvIsimip (window pipeline model): {len(isi)} mismatches, first: {str(isi[0])[:400]}")
+        mismatches = mismatches + isi[:5]
+    if mismatches or not lean_ok or force_search:  # a tie is broken: widen the end-to-end search
+        pipeline_cases(rng, 24 if quick else 144, problems, res)
     masked_cases(rng, 2 if quick else 12, problems, res)
     if (mismatches or not lean_ok) and not problems:  # a tie is broken: widen the failing-input search on the real code
         cs2 = Cases()
